@@ -91,7 +91,7 @@ def arena_line(model, align, plan_buffer=None):
 def main():
     ck = Check("C12", "translation_validation")
     ck.lean_stage(["VelaVerif.Props.C12", "VelaVerif.Props.C12LiveRange", "VelaVerif.Props.C12InPlace", "VelaVerif.Props.C12Sched",
-                   "VelaVerif.Props.C12Serial", "VelaVerif.Props.C12Raw"])
+                   "VelaVerif.Props.C12Serial", "VelaVerif.Props.C12Raw", "VelaVerif.Props.C12Src"])
     n = 6000 if ck.thorough else 320
     # gen2:<p> = the OUTPUT of profile <p> compiled again (same or other options), sometimes a third time (harness/regen.py):
     # the final file must still carry ONE plan, and that plan must still cover what the passed-through Ethos-U operators touch
